@@ -7,7 +7,7 @@ package forwarder
 //
 //vf:assume C12-map: errors are drawn from a constructor pool (net.OpError timeout/non-timeout for dial/read/write, tls.RecordHeaderError with 5 symbolic header bytes, tls.CertificateVerificationError, tls.AlertError from {40,42,80,255}, martian.ErrorStatus with a status from {400,404,418,499,502,599}, the proxy's own authentication/deny/prohibited errors, context.Canceled, an unclassified error), each bare, wrapped by fmt.Errorf("%w") or by *url.Error; request scheme http/https
 //vf:assume C12-hostile: the client sends one of 6 prefixes (nothing, partial request lines, a TLS record start, a request with a dangling Content-Length) followed by 4 (quick) / 6 (thorough) arbitrary ASCII bytes and closes; non-ASCII junk and longer streams are outside
-//vf:assume C12-pipe: faults are injected at the next hop of the real connection loop: round-trip error (from the pool), dial failure of a CONNECT, write failure on the client socket after k bytes, origin body failing after 0/2/4 of 6 announced bytes with a timeout / non-timeout / EOF / decoding error; truncation of a real upstream reply inside net/http's Transport is outside
+//vf:assume C12-pipe: faults are injected at the next hop of the real connection loop: round-trip error (from the pool), dial failure of a CONNECT, write failure on the client socket after k bytes, origin body (Content-Length or chunked, plain or text/event-stream) failing after 0/2/4 of 6 bytes with a timeout / non-timeout / EOF / decoding error; truncation of a real upstream reply inside net/http's Transport is outside
 
 import (
 	"bufio"
@@ -171,9 +171,19 @@ func vfH_C12_pipe() {
 		vfrt.Reach("pipe-body-fault")
 		k := vfrt.Choice("body-bytes-before-fault", 3) * 2
 		berr := []error{&net.OpError{Op: "read", Net: "tcp", Err: vfNetErr{true}}, &net.OpError{Op: "read", Net: "tcp", Err: vfNetErr{false}}, io.ErrUnexpectedEOF, errors.New("malformed chunked encoding")}[vfrt.Choice("body-error", 4)]
+		// the reply is delimited by Content-Length or chunked, and may be an event stream (each has its own write path)
+		chunked := vfrt.Choice("body-chunked", 2) == 1
+		sse := vfrt.Choice("body-event-stream", 2) == 1
 		rt.respond = func(req *http.Request, n int) (*http.Response, error) {
 			if n == 1 {
-				return &http.Response{StatusCode: 200, ProtoMajor: 1, ProtoMinor: 1, Header: http.Header{}, Body: &vfFailingBody{data: []byte("ABCDEF")[:k], err: berr}, ContentLength: 6, Request: req}, nil
+				res := &http.Response{StatusCode: 200, ProtoMajor: 1, ProtoMinor: 1, Header: http.Header{}, Body: &vfFailingBody{data: []byte("ABCDEF")[:k], err: berr}, ContentLength: 6, Request: req}
+				if chunked {
+					res.ContentLength, res.TransferEncoding = -1, []string{"chunked"}
+				}
+				if sse {
+					res.Header.Set("Content-Type", "text/event-stream")
+				}
+				return res, nil
 			}
 			return &http.Response{StatusCode: 200, ProtoMajor: 1, ProtoMinor: 1, Header: http.Header{}, Body: io.NopCloser(bytes.NewReader([]byte("second"))), ContentLength: 6, Request: req}, nil
 		}
